@@ -21,7 +21,9 @@ from __future__ import annotations
 import ast
 import operator
 
-from ..model import Program, dotted, const, kwarg, AnalysisError
+from typing import Dict, List, Optional, Tuple
+
+from ..model import Program, dotted, const, kwarg, AnalysisError, walk_no_nested, arg_or_kw
 from ..report import Result
 from . import ix_common as I
 from . import eo_common as E
@@ -115,35 +117,91 @@ def zero_filter(prog: Program, res: Result) -> None:
             res.undecided("ZERO", fi.short, desc, prog.loc(fi))
 
 
+def _doc_order(node: ast.AST):
+    """Nodes in document (evaluation) order."""
+    yield node
+    for c in ast.iter_child_nodes(node):
+        yield from _doc_order(c)
+
+
 def fill_table(prog: Program, res: Result) -> None:
     fi = prog.func("sptensor.sptensor.__truediv__")
-    # find  moresubs = tt_intersect_rows(A, B) ... morevals.fill(X)  triples in order
+    me = fi.params()[0] if fi.params() else "self"
+    you = fi.params()[1] if len(fi.params()) > 1 else "other"
+    defs: Dict[str, List[ast.AST]] = {}
+    for n in walk_no_nested(fi.node):
+        if isinstance(n, ast.Assign):
+            for t in n.targets:
+                if isinstance(t, ast.Name):
+                    defs.setdefault(t.id, []).append(n.value)
+                elif isinstance(t, ast.Tuple) and isinstance(n.value, ast.Tuple) and len(t.elts) == len(n.value.elts):
+                    for te, ve in zip(t.elts, n.value.elts):
+                        if isinstance(te, ast.Name):
+                            defs.setdefault(te.id, []).append(ve)
+
+    def index_set(e: ast.AST, depth: int = 0) -> Optional[Tuple[str, str]]:
+        """(owner, 'nz' | 'zero'): the stored subscripts of an operand, or the complement of them (all subscripts minus the stored ones)."""
+        if depth > 5:
+            return None
+        if isinstance(e, ast.Attribute) and e.attr == "subs" and isinstance(e.value, ast.Name) and e.value.id in (me, you):
+            return ("self" if e.value.id == me else "other", "nz")
+        if isinstance(e, ast.Call) and isinstance(e.func, ast.Attribute) and e.func.attr == "allsubs" and isinstance(e.func.value, ast.Name) \
+                and e.func.value.id in (me, you):
+            return ("self" if e.func.value.id == me else "other", "zero")      # every subscript: the complement of an empty stored set
+        if isinstance(e, ast.Subscript):
+            base = index_set(e.value, depth + 1)
+            sl = e.slice.elts[0] if isinstance(e.slice, ast.Tuple) and e.slice.elts else e.slice
+            for _ in range(3):
+                if isinstance(sl, ast.Name) and len(defs.get(sl.id, [])) == 1:
+                    sl = defs[sl.id][0]
+            if base is not None and base[1] == "zero" and isinstance(sl, ast.Call) and (dotted(sl.func) or "").split(".")[-1] == "tt_setdiff_rows" \
+                    and len(sl.args) == 2:
+                full, stored = index_set(sl.args[0], depth + 1), index_set(sl.args[1], depth + 1)
+                if full == base and stored == (base[0], "nz"):
+                    return base
+            return None
+        if isinstance(e, ast.Name) and e.id in defs:
+            got = {index_set(d, depth + 1) for d in defs[e.id]}
+            if len(got) == 1:
+                return next(iter(got))
+        return None
+
+    # every class of positions: m = tt_intersect_rows(A, B), followed (before the next class) by the value its rows are filled with
     classes = []
     cur = None
-    for n in ast.walk(fi.node):
-        pass
-    stmts = [n for n in ast.walk(fi.node) if isinstance(n, (ast.Assign, ast.Expr))]
-    stmts.sort(key=lambda n: n.lineno)
+    stmts = [n for n in walk_no_nested(fi.node) if isinstance(n, (ast.Assign, ast.Expr))]
+    stmts.sort(key=lambda n: (n.lineno, n.col_offset))
+    order = {id(n): k for k, n in enumerate(_doc_order(fi.node))}
+    stmts.sort(key=lambda n: order.get(id(n), 0))
     for n in stmts:
-        if isinstance(n, ast.Assign) and isinstance(n.value, ast.Call) and (dotted(n.value.func) or "") == "tt_intersect_rows" and len(n.value.args) == 2:
-            cur = tuple(ast.unparse(a) for a in n.value.args)
-        if isinstance(n, ast.Expr) and isinstance(n.value, ast.Call) and isinstance(n.value.func, ast.Attribute) and n.value.func.attr == "fill" and cur:
-            classes.append((cur, n.value.args[0] if n.value.args else None, n))
-            cur = None
-        if isinstance(n, ast.Assign) and cur and isinstance(n.targets[0], ast.Name) and "vals" in n.targets[0].id and isinstance(n.value, ast.BinOp) \
-                and "inf" in ast.unparse(n.value):
-            classes.append((cur, n.value, n))
+        if isinstance(n, ast.Assign) and isinstance(n.value, ast.Call) and (dotted(n.value.func) or "").split(".")[-1] == "tt_intersect_rows" \
+                and len(n.value.args) == 2:
+            cur = (index_set(n.value.args[0]), index_set(n.value.args[1]), n)
+            continue
+        if cur is None:
+            continue
+        fill = None
+        if isinstance(n, ast.Expr) and isinstance(n.value, ast.Call) and isinstance(n.value.func, ast.Attribute) and n.value.func.attr == "fill":
+            fill = n.value.args[0] if n.value.args else None
+        elif isinstance(n, ast.Assign):
+            for c in ast.walk(n.value):
+                if isinstance(c, ast.Call) and (dotted(c.func) or "") in ("np.full", "numpy.full"):
+                    fill = arg_or_kw(c, 1, "fill_value")
+                    break
+            if fill is None and isinstance(n.value, ast.BinOp) and "inf" in ast.unparse(n.value):
+                fill = n.value
+            if fill is None and isinstance(n.value, ast.BinOp) and isinstance(n.value.op, ast.Mult):
+                for side, oth in ((n.value.left, n.value.right), (n.value.right, n.value.left)):
+                    if isinstance(oth, ast.Call) and (dotted(oth.func) or "") in ("np.ones", "numpy.ones"):
+                        fill = side
+        if fill is not None:
+            classes.append((cur[0], cur[1], fill, n))
             cur = None
 
-    def role(a: str) -> str:
-        return "zero" if "Zero" in a else "nz"
-
-    for (a, b), fill, node in classes:
-        ra, rb = role(a), role(b)
-        owner_a = "self" if "self" in a.lower() else "other"
-        owner_b = "self" if "self" in b.lower() else "other"
+    for a, b, fill, node in classes:
         cls = {(("self", "nz"), ("other", "zero")): "x/0", (("other", "nz"), ("self", "zero")): "0/x",
-               (("self", "zero"), ("other", "zero")): "0/0"}.get(((owner_a, ra), (owner_b, rb)))
+               (("self", "zero"), ("other", "zero")): "0/0", (("other", "zero"), ("self", "nz")): "x/0",
+               (("self", "zero"), ("other", "nz")): "0/x", (("other", "zero"), ("self", "zero")): "0/0"}.get((a, b))
         if cls is None:
             continue
         ft = ast.unparse(fill) if fill is not None else ""
